@@ -165,12 +165,12 @@ class C07(HistoryCampaign):
             for _ in range(rnd.randint(1, 2)):
                 st = {"temperature": gen.gen_temperature(rnd)}
                 if sc["driver"] in ("Isobaric", "Isotension") and rnd.random() < 0.6:
-                    st["pressure"] = gen.logu(rnd, 1e-4, 1e-1)
+                    st["pressure"] = rnd.choice([gen.logu(rnd, 1e-4, 1e-1), gen.logu(rnd, 1e-4, 1e-1), 0.0])
                 if sc["driver"] == "Isotension" and rnd.random() < 0.5:
                     a = [gen.rfloat(rnd, -0.05, 0.05, 5) for _ in range(6)]
                     st["external_stress"] = [[a[0], a[3], a[4]], [a[3], a[1], a[5]], [a[4], a[5], a[2]]]
                 if sc["driver"] == "GrandCanonical" and rnd.random() < 0.6:
-                    st["chemical_potential"] = gen.rfloat(rnd, -0.5, 0.5, 4)
+                    st["chemical_potential"] = rnd.choice([gen.rfloat(rnd, -0.5, 0.5, 4), gen.rfloat(rnd, -0.5, 0.5, 4), 0.0])
                 if sc["driver"] == "GrandCanonical" and rnd.random() < 0.3:
                     st["accessible_volume"] = gen.logu(rnd, 50.0, 500.0)
                 chs.append({"at": rnd.randint(1, max(1, n - 1)), "set": st})
